@@ -35,6 +35,36 @@ def run(ctx):
                            lambda cell, pty=pty: [posit_arg(pty, cell[0][0], cell[0][1], 0), posit_arg(pty, cell[1][0], cell[1][1], 1)],
                            [pc, pc], posit_binary_spec(pty, f), pty.bits, max_product=40000)
             ctx.count('probe_cells', st['cells'])
+            # rounding matrix: every result scale x rounding situation (exact / below / tie even / tie odd / above / carry-out), directed construction
+            pts = probes.op_probes(pty, name, 1 if ctx.tier == 'quick' else 2)
+            run_points(ctx, prog, 'GCR', '%s::%s' % (pty.name, name), path, pty, pts, posit_binary_spec(pty, f))
+    # R10 with one symbolic operand: a (+/-) b for a constant a = 2^s * 1.0 or 2^s * 1.1..1 and *every* b of a regime cell placed so that the
+    # exact result is a routing of b's bits (no literal meets a one or a carry); then the rounding cases of the result.  Proves alignment,
+    # sticky collection, rounding, carry-out and saturation of add_mags / sub_mags on those families, both operand orders, both signs.
+    import rules_rounding
+    ctx.trusted += [t for t in rules_rounding.TRUSTED if t not in ctx.trusted]
+    ctx.rules.append('R10 (one symbolic operand): a +/- b with a constant, b symbolic per regime cell; result vector == correctly rounded sum / difference')
+    tasks = []
+    for pty in PTYS:
+        maxs = (pty.bits - 2) << pty.es
+        allsc = list(range(-maxs, maxs))
+        if pty.bits == 32 and ctx.tier == 'quick':
+            allsc = [s_ for s_ in allsc if s_ % 4 in (0, 3) and (s_ >> 2) % 2 == 0]
+        for opn in ('add', 'sub'):
+            path = prog.inherent(pty.tykey, opn)
+            if not path:
+                continue
+            chunk = 8 if pty.bits > 8 else len(allsc)
+            for i in range(0, len(allsc), chunk):
+                for swap in (False, True):
+                    for neg in (False, True):
+                        if pty.bits == 32 and ctx.tier == 'quick' and swap != neg:
+                            continue
+                        tasks.append((rules_rounding.check_add, ('R10', '%s::%s' % (pty.name, opn), path, pty, False),
+                                      dict(scales=allsc[i:i + chunk], swap=swap, negative=neg, op=opn)))
+    st = rules_rounding.run_parallel(ctx, prog, tasks)
+    ctx.count('one_symbolic_operand_cells', st['cells'])
+    ctx.count('one_symbolic_operand_cells_proved', st['proved'])
     ctx.require('C01 decided cells', tot, 300)
     ctx.undecided['general_path'] = 'alignment, sticky collection, rounding and saturation on the general arithmetic path are not decided'
     return LEVEL, ('NaR/zero algebra and evaluation order of the guards of + - * / for the three fixed types, decided for all operand pairs of each '
